@@ -24,6 +24,14 @@ API (stable; other checks reuse it)
     call(app, environ) -> Result
         Never raises for application misbehaviour: an exception escaping the application call, the body
         iteration or close() is recorded in Result.raised = {'type', 'message', 'where', 'traceback'}.
+        The returned iterable is always consumed completely and then close()d if it has a close method (the
+        server's PEP 3333 obligation; with file_wrapper=True the wrapper is wsgiref.util.FileWrapper, whose
+        close() closes the wrapped file object, as wsgiref / gunicorn / uWSGI / mod_wsgi do).
+
+    begin(app, environ) -> Pending ;  complete(pending) -> Result
+        The two halves of call(): begin() calls the application and keeps the body unconsumed, complete()
+        consumes + closes + validates.  Use them to model overlapping requests of a threaded server
+        (begin A, begin B, complete A, complete B): state shared between responses shows up this way.
 
     request(app, method='GET', path='/', query='', headers=(), **kw) -> Result      (= build_environ + call)
 
@@ -193,10 +201,23 @@ def _check_start_response(res, status, headers):
             p.append(('content-type-missing', 'no Content-Type header in a %d response' % res.code))
 
 
-def call(app, environ):
-    res = Result()
-    state = {'called': 0, 'chunks_before_start': False}
-    written = []
+class Pending(object):
+    """A started but not yet consumed response (see begin / complete)."""
+
+    def __init__(self, environ):
+        self.environ = environ
+        self.res = Result()
+        self.state = {'called': 0, 'chunks_before_start': False}
+        self.written = []
+        self.iterable = None
+        self.completed = False
+
+
+def begin(app, environ):
+    """Call the application and keep the returned iterable *unconsumed* (what a threaded server does before it
+    starts sending).  Several responses can be begun before any of them is completed, in any order."""
+    pend = Pending(environ)
+    res, state = pend.res, pend.state
 
     def start_response(status, headers, exc_info=None):
         state['called'] += 1
@@ -207,14 +228,25 @@ def call(app, environ):
         res.problems[:] = [q for q in res.problems if q[0] == 'start_response-twice']
         res.code = None
         _check_start_response(res, status, headers)
-        return written.append
+        return pend.written.append
 
-    chunks = []
-    iterable = None
     try:
-        iterable = app(environ, start_response)
+        pend.iterable = app(environ, start_response)
     except Exception:
         res.raised = _raised('call')
+    return pend
+
+
+def complete(pend):
+    """Consume the body of a begun response, call close() on the iterable if it has one (the server's obligation
+    under PEP 3333; with wsgi.file_wrapper = wsgiref.util.FileWrapper this closes the wrapped file object) and
+    apply the response-side rules.  -> Result"""
+    res, state, environ = pend.res, pend.state, pend.environ
+    if pend.completed:
+        return res
+    pend.completed = True
+    chunks = []
+    iterable = pend.iterable
     if res.raised is None:
         if isinstance(iterable, (str, bytes)):
             res.problems.append(('body-is-string', 'application returned a %s, not an iterable of bytes'
@@ -242,7 +274,7 @@ def call(app, environ):
                 except Exception:
                     if res.raised is None:
                         res.raised = _raised('close')
-    res.body = b''.join(written) + b''.join(chunks)
+    res.body = b''.join(pend.written) + b''.join(chunks)
     res.errors = environ['wsgi.errors'].getvalue() if hasattr(environ.get('wsgi.errors'), 'getvalue') else ''
     if res.raised is None:
         if not state['called']:
@@ -253,6 +285,10 @@ def call(app, environ):
                 res.problems.append(('content-length-mismatch', 'Content-Length %r but %d body bytes'
                                      % (cl, len(res.body))))
     return res
+
+
+def call(app, environ):
+    return complete(begin(app, environ))
 
 
 def request(app, method='GET', path='/', query='', headers=(), **kw):
